@@ -79,13 +79,9 @@ theorem vObject_isOk (s : RawSchema) (fields : List InputValue) (oneOf : Bool)
     (h : ∀ k g, lookupLast subs k = some g → ∀ t, s.isInputType t = true → IsOk (g t)) :
     IsOk (vObject s true fields oneOf entries subs) := by
   unfold vObject
-  have h1 := outFlatMap_isOk (fun (fd : InputValue) =>
-      match lookupLast subs fd.name with
-      | none => Out.ok (if fd.isRequired then [[]] else [])
-      | some g =>
-        if true && !s.isInputType fd.type then Out.ok []
-        else Out.mapOk (fun es => es.map (fun p => Seg.key fd.name :: p)) (g fd.type)) fields (by
+  have h1 := outFlatMap_isOk (vObjField s true subs) fields (by
     intro fd _
+    unfold vObjField
     split
     · exact isOk_ok _
     · rename_i g hg
@@ -96,10 +92,8 @@ theorem vObject_isOk (s : RawSchema) (fields : List InputValue) (oneOf : Bool)
         simp only [hi, Bool.not_false, Bool.and_self]
         exact isOk_ok _)
   obtain ⟨p1, hp1⟩ := h1
-  split
-  · exact isOk_ok _
-  · rename_i u heq; have := hp1.symm.trans heq; cases this
-  · rename_i c heq; have := hp1.symm.trans heq; cases this
+  rw [hp1]
+  exact isOk_ok _
 
 mutual
 theorem vLit_isOk (s : RawSchema) : ∀ (v : Lit) (t : TRef), s.isInputType t = true →
